@@ -2,7 +2,7 @@
 Require Extraction.
 Require Import ExtrOcamlBasic.
 From Coq Require Import ZArith NArith.
-From Astisub Require Import Kit.Base Kit.Str Kit.Float64 Kit.Scan Kit.Html Model.Ops Model.Dur Model.Lin Model.Srt Model.Files Model.Vtt Model.Conv.
+From Astisub Require Import Kit.Base Kit.Str Kit.Float64 Kit.Scan Kit.Html Model.Ops Model.Dur Model.Lin Model.Srt Model.Files Model.Vtt Model.Conv Kit.Utf8 Model.Stl.
 Extraction "model.ml"
   Z.add Z.mul Z.opp Z.div Z.modulo Z.of_N Z.to_N N.add N.mul
   order merge add_dur force_duration fragment unfragment optimize remove_styling item_text
@@ -13,4 +13,6 @@ Extraction "model.ml"
   read_srt read_srt_lines write_srt parse_text_srt escape_html unescape_html
   reader_for writer_for
   read_vtt write_vtt parse_text_vtt vtt_line_simple
-  convert_srt_vtt convert_vtt_srt.
+  convert_srt_vtt convert_vtt_srt
+  read_stl read_faithful write_stl write_faithful encode_text_stl text_faithful decode_bytes open_row stl_ttx_row
+  parse_gsi gsi_faithful gsi_bytes parse_tti tti_bytes new_gsi new_tti eattr0 time_faithful.
